@@ -292,6 +292,9 @@ func c02Body(sc c02Scn, res *string) func(x *sched.Exec) {
 					if g%3 == 1 && y%3 != 1 {
 						extra = true
 					}
+					if g%3 == 2 {
+						x.Fail("C02|measurement-counted-in-two-collections|"+reader, "%s: the deltas for %s add up to %d over %d collections: a measurement is counted twice (inputs are distinct powers of 3; recorded total %d)", reader, a, sum[a]*sign, len(colls), w*sign)
+					}
 				}
 				if miss || extra {
 					x.Fail("C02|delta-sum-mismatch|"+reader, "%s: delta values for %s add up to %d over %d collections, recorded total is %d, of which %d was recorded before the reader was shut down (collections %v)", reader, a, sum[a]*sign, len(colls), w*sign, must[a]*sign, colls)
